@@ -18,7 +18,7 @@ ASSUMPTIONS = ['CPython call protocol = the reference binder bindRef of the mode
                'wrapper equality is compared on class, parameters and wrapped function recursively, ignoring the memo field function_fullargspec',
                'cache keys: arguments are ints/floats/bools/strings/None, lists/tuples/dicts of them, sets of ints and int ndarrays (written as ~set:/~arr: strings on the wire); "the same combination" = python == of (args, kwargs) (1 == 1.0 == True, keyword order irrelevant, [1] != (1,), {"a":1} != (("a",1),)); NaN arguments are not generated (nan != nan: every call is a new combination)',
                'several objects alive at once (stackhist3): a constructor returns a NEW chain and leaves its operand as it is; the dict of a cache layer exists from the layer\'s first call on and is shared with every copy made afterwards (model of the repaired constructor, P7)',
-               'the stack model covers loops on arguments that are not a list / tuple / dict of one of ITS looped types (inDomain); lines outside are declined by the driver (bad-op) and only the verdict is compared']
+               'the stack model covers loops on arguments that are not a list / tuple / dict of one of ITS looped types (inDomain); `stack` lines outside are declined by the driver (bad-op) and only the verdict is compared; `stackx` lines are answered everywhere by the looping model evalChainL (WrapLoops.lean), which is evalChain inside the domain (theorem evalChainL_in_domain) and a model extension outside (C19 subject: a disagreement there is a divergence)']
 EXHAUSTIVE = {'quick': False, 'thorough': False}
 EXTRA = {}
 
